@@ -38,12 +38,14 @@ pub fn execute(config: &iceoryx2::config::Config, cfg: RcCfg, mode: &Mode, tag: 
     let servers: Vec<_> = (0..cfg.servers).map(|_| svc.server_builder().backpressure_strategy(BackpressureStrategy::DiscardData).create().unwrap()).collect();
     let client = svc.client_builder().backpressure_strategy(BackpressureStrategy::DiscardData).create().unwrap();
     let sending_done = AtomicBool::new(false);
+    let servers_done = std::sync::atomic::AtomicUsize::new(0);
+    let gave_up = AtomicBool::new(false);
     let bad: Mutex<Vec<(String, String)>> = Mutex::new(Vec::new());
     let received: Mutex<Vec<Vec<u64>>> = Mutex::new(vec![Vec::new(); cfg.servers]);
     let got_responses: Mutex<Vec<(u64, Vec<u64>)>> = Mutex::new(Vec::new());
     let mut bodies: Vec<Box<dyn FnOnce() + Send>> = Vec::new();
     {
-        let (client, bad, sending_done, got_responses) = (&client, &bad, &sending_done, &got_responses);
+        let (client, bad, sending_done, got_responses, servers_done, gave_up) = (&client, &bad, &sending_done, &got_responses, &servers_done, &gave_up);
         bodies.push(Box::new(move || {
             let mut pend = Vec::new();
             for n in 1..=cfg.requests as u64 {
@@ -61,8 +63,11 @@ pub fn execute(config: &iceoryx2::config::Config, cfg: RcCfg, mode: &Mode, tag: 
             // collect responses until every server has answered every request (bounded by logical progress: servers are finite)
             let expected = cfg.servers * cfg.responses;
             let mut out: Vec<(u64, Vec<u64>)> = pend.iter().map(|(n, _)| (*n, Vec::new())).collect();
-            let mut idle = 0;
-            while idle < 20_000 {
+            // the pending responses stay alive until every server thread has finished (logical hand-shake, no
+            // patience counter: a descheduled server is not a disconnect); the wall clock only guards the harness
+            let t0 = std::time::Instant::now();
+            let mut last_round = false;
+            loop {
                 let mut progress = false;
                 for (i, (n, p)) in pend.iter().enumerate() {
                     loop {
@@ -88,10 +93,17 @@ pub fn execute(config: &iceoryx2::config::Config, cfg: RcCfg, mode: &Mode, tag: 
                         }
                     }
                 }
-                if out.iter().all(|o| o.1.len() >= expected) {
+                let _ = progress;
+                if out.iter().all(|o| o.1.len() >= expected) || last_round {
                     break;
                 }
-                if progress { idle = 0 } else { idle += 1 }
+                if servers_done.load(Relaxed) >= cfg.servers {
+                    last_round = true; // one more drain after the last server left
+                }
+                if t0.elapsed().as_secs() > 30 {
+                    gave_up.store(true, Relaxed);
+                    break;
+                }
                 std::thread::yield_now();
             }
             *got_responses.lock().unwrap() = out;
@@ -99,7 +111,7 @@ pub fn execute(config: &iceoryx2::config::Config, cfg: RcCfg, mode: &Mode, tag: 
         }));
     }
     for (si, server) in servers.iter().enumerate() {
-        let (bad, sending_done, received) = (&bad, &sending_done, &received);
+        let (bad, sending_done, received, servers_done) = (&bad, &sending_done, &received, &servers_done);
         bodies.push(Box::new(move || {
             let mut mine = Vec::new();
             let mut idle_after_done = 0;
@@ -141,6 +153,7 @@ pub fn execute(config: &iceoryx2::config::Config, cfg: RcCfg, mode: &Mode, tag: 
                 }
             }
             received.lock().unwrap()[si] = mine;
+            servers_done.fetch_add(1, Relaxed);
         }));
     }
     let stats = sched::run_threads(mode, bodies);
@@ -178,5 +191,9 @@ pub fn execute(config: &iceoryx2::config::Config, cfg: RcCfg, mode: &Mode, tag: 
             obs = vkit::mix(obs, *x);
         }
     }
-    ExecResult { stats, violations: viol, nontrivial: true, observed: obs, inconclusive: false }
+    let gu = gave_up.load(Relaxed);
+    if gu {
+        viol.clear(); // the harness watchdog fired: nothing observed in this execution is a verdict
+    }
+    ExecResult { stats, violations: viol, nontrivial: !gu, observed: obs, inconclusive: gu }
 }
